@@ -373,12 +373,12 @@ func commandTable() []cmdSpec {
 func runBlackBox(r *hx.Result, cfg hx.Config, rng *rand.Rand) {
 	b := &bb{r: r, cfg: cfg, rng: rng}
 	var err error
-	b.sa, err = srv.Start(filepath.Join(cfg.Work, "c17-json"), "--appendonly", "yes")
+	b.sa, err = srv.Start(filepath.Join(cfg.Work, "c17-json"), "--appendonly", "no")
 	if err != nil {
 		panic(err)
 	}
 	defer b.sa.Kill()
-	b.sb, err = srv.Start(filepath.Join(cfg.Work, "c17-resp"), "--appendonly", "yes")
+	b.sb, err = srv.Start(filepath.Join(cfg.Work, "c17-resp"), "--appendonly", "no")
 	if err != nil {
 		panic(err)
 	}
